@@ -8,6 +8,8 @@ use bls12_381_plus::elliptic_curve::hash2curve::ExpandMsgXmd;
 use bls12_381_plus::ff::Field;
 use bls12_381_plus::group::Curve;
 use bls12_381_plus::{pairing, G1Affine, G1Projective, G2Affine, G2Projective, Gt, Scalar};
+/// the scalar field element type, for callers that have to name it
+pub type Sc = Scalar;
 pub use bls12_381_plus::Scalar as RefScalar;
 use sha2::{Digest, Sha256};
 use sha3::digest::{ExtendableOutput, Update, XofReader};
@@ -628,6 +630,16 @@ pub fn signcrypt_seal(b: &Bls, pk: &Pt, msg: &[u8], dst: &[u8], r: &Scalar) -> S
     let f = frame(msg);
     let ks = shake128(&pk.mul(r).to_bytes(), f.len());
     let v = xor(&f, &ks);
+    let mut t = u.to_bytes();
+    t.extend_from_slice(&v);
+    let w = b.hash_msg(&t, dst).mul(r);
+    SignCrypt { u, v, w }
+}
+/// the same with a frame the caller made by hand (not padded, any length)
+pub fn signcrypt_seal_framed(b: &Bls, pk: &Pt, f: &[u8], dst: &[u8], r: &Scalar) -> SignCrypt {
+    let u = b.pk_gen().mul(r);
+    let ks = shake128(&pk.mul(r).to_bytes(), f.len());
+    let v = xor(f, &ks);
     let mut t = u.to_bytes();
     t.extend_from_slice(&v);
     let w = b.hash_msg(&t, dst).mul(r);
